@@ -69,6 +69,14 @@ Theorem C20_channel_levels : forall level volume x : N,
 Proof. intros. split; [apply sq_level_q | apply wv_level_q]. Qed.
 Print Assumptions C20_channel_levels.
 
+(* a channel whose status flag is off contributes nothing, whatever its DAC, volume and waveform state are
+   (so a channel ended by its length counter or a sweep overflow is silent although its DAC is still on) *)
+Theorem C20_disabled_channel_silent : forall (c : square) (w : wave) (n : noise),
+  (sqEnabled c = false -> sq_sample c = 0) /\ (wvEnabled w = false -> wv_sample w = 0) /\
+  (nsEnabled n = false -> ns_sample n = 0).
+Proof. intros c w n. split; [exact (sq_sample_off c)|]. split; [exact (wv_sample_off w) | exact (ns_sample_off n)]. Qed.
+Print Assumptions C20_disabled_channel_silent.
+
 (* a side's sample is 0 when no enabled channel is routed to it *)
 Theorem C20_routing_zero : forall s : apu,
   ((ct1L (ctl s) = true -> en1 s = false) -> (ct2L (ctl s) = true -> en2 s = false) ->
